@@ -148,6 +148,9 @@ func (c *corpus) inputT(r *rng, pLarge int, theme string) scn.Input {
 			in.Src = in.Src[:2+r.n(len(in.Src)-2)]
 			in.Name += "[cut]"
 		}
+	case 3: // a tail the grammars cannot recover from: errors reported, then no tree at all
+		in.Src = append(in.Src, fatalTails[r.n(len(fatalTails))]...)
+		in.Name += "[fatal]"
 	}
 	if f.php5 && r.chance(60) {
 		in.Version = []string{"5.0", "5.3", "5.6"}[r.n(3)]
@@ -155,8 +158,13 @@ func (c *corpus) inputT(r *rng, pLarge int, theme string) scn.Input {
 		in.Version = versions[r.n(len(versions))]
 	}
 	in.Callback = r.chance(80)
+	if in.Callback && (f.bad || strings.HasSuffix(in.Name, "[cut]") || strings.HasSuffix(in.Name, "[fatal]")) && r.chance(8) {
+		in.AbortAt = 1 + r.n(3) // fault: the caller's error callback panics (the pipeline recovers)
+	}
 	return in
 }
+
+var fatalTails = []string{"\nclass {", "\ninterface {", "\n$a = function (", "\n}}}", "\nabstract final", "\ntrait T extends U { } class {"}
 
 var c11Ops = []string{"print", "dump", "dumpT", "dumpP", "dumpTP", "traverse", "resolve", "resolve", "print", "printP", "null"}
 var siteClassNames = []string{"cli", "pool", "lexer-new", "lexer-helpers", "newlines", "scanner", "php7-actions", "php5-actions", "parser-glue", "position-builder", "printer", "dumper", "resolver", "traverser", "version", "errors"}
@@ -324,18 +332,45 @@ func genC11(c *corpus, seed uint64) *scn.Scenario {
 	}
 	for i := 0; i < ni; i++ {
 		if i > 0 && r.chance(15) {
-			// a near-duplicate of an earlier input: same program, a few letters
-			// with flipped case (loosely keyed caches conflate the two)
+			// a near-duplicate of an earlier input (loosely keyed caches and
+			// interning tables conflate the two): a few letters with flipped
+			// case, a namespace separator removed from or inserted into a
+			// name, or a blank inserted next to one
 			src := s.Inputs[r.n(i)]
-			v := scn.Input{Name: src.Name + "[case]", Src: append([]byte(nil), src.Src...), Version: src.Version, Callback: src.Callback}
-			var letters []int
+			v := scn.Input{Name: src.Name, Src: append([]byte(nil), src.Src...), Version: src.Version, Callback: src.Callback}
+			isId := func(ch byte) bool {
+				return ch == '_' || (ch >= 'a' && ch <= 'z') || (ch >= 'A' && ch <= 'Z') || (ch >= '0' && ch <= '9')
+			}
+			var letters, seps, mids []int
 			for k, ch := range v.Src {
 				if (ch >= 'a' && ch <= 'z') || (ch >= 'A' && ch <= 'Z') {
 					letters = append(letters, k)
 				}
+				if ch == '\\' && k > 0 && k+1 < len(v.Src) && isId(v.Src[k-1]) && isId(v.Src[k+1]) {
+					seps = append(seps, k)
+				}
+				if k > 1 && k+2 < len(v.Src) && isId(ch) && isId(v.Src[k-1]) && isId(v.Src[k-2]) && isId(v.Src[k+1]) {
+					mids = append(mids, k)
+				}
 			}
-			for f := 1 + r.n(4); f > 0 && len(letters) > 0; f-- {
-				v.Src[letters[r.n(len(letters))]] ^= 0x20
+			switch x := r.n(4); {
+			case x == 0 && len(seps) > 0:
+				k := seps[r.n(len(seps))]
+				v.Src = append(v.Src[:k], v.Src[k+1:]...)
+				v.Name += "[sep-]"
+			case x == 1 && len(mids) > 0:
+				k := mids[r.n(len(mids))]
+				v.Src = append(v.Src[:k], append([]byte{'\\'}, v.Src[k:]...)...)
+				v.Name += "[sep+]"
+			case x == 2 && len(seps) > 0:
+				k := seps[r.n(len(seps))]
+				v.Src = append(v.Src[:k], append([]byte{' '}, v.Src[k:]...)...)
+				v.Name += "[ws]"
+			default:
+				for f := 1 + r.n(4); f > 0 && len(letters) > 0; f-- {
+					v.Src[letters[r.n(len(letters))]] ^= 0x20
+				}
+				v.Name += "[case]"
 			}
 			s.Inputs = append(s.Inputs, v)
 			continue
@@ -456,6 +491,7 @@ func genC18(c *corpus, seed uint64) *scn.Scenario {
 	s := &scn.Scenario{Prop: "C18", RunSeed: seed}
 	if r.chance(30) && knobEnabled {
 		s.Kind = "parse"
+		defer func() { s.Faults.GCSteps = r.gcSteps(estSteps(s.Inputs, s.Tasks)) }()
 		nt := 1 + r.n(3)
 		ni := 1 + r.n(3)
 		pLarge := r.pick([]int{0, 10, 40, 80})
